@@ -278,6 +278,8 @@ def run(ctx):
         ex.explore(DIRECTED[name], "directed/" + name)
     # tie (model vs C) and witnesses
     tie_broken = mem_tie.run_tie(ctx, exe, "C03")
+    # the vnacal_new_t allocation skeleton (coq/Mem/NewAlloc.v): generated histories and every (op, k) of the directed ones
+    tie_broken = tie_broken + mem_tie.run_new_tie(ctx, "C03")
 
     # generated histories
     quick = ctx.tier != "thorough"
